@@ -48,6 +48,10 @@ pub struct Case {
     /// file at the path, and no rotation is requested while handling any later record
     #[serde(default)]
     pub moved_away: bool,
+    /// the configured path holds a reference to a variable that is not set when the appender is built (the reference
+    /// stays as it is, documented) and is set by the time the first record arrives: the log file is where it was
+    #[serde(default)]
+    pub late_env: bool,
 }
 
 pub fn strategy() -> impl Strategy<Value = Case> {
@@ -60,9 +64,9 @@ pub fn strategy() -> impl Strategy<Value = Case> {
         lens(),
         prop::option::weighted(0.12, prop::collection::vec(prop::collection::vec(0usize..40, 1..=5), 2..=8)),
         prop::option::weighted(0.35, lens()),
-        (prop::bool::weighted(0.2), prop::bool::ANY, prop::bool::ANY, prop::bool::weighted(0.2), prop::bool::weighted(0.2), prop::bool::weighted(0.15)),
+        (prop::bool::weighted(0.2), prop::bool::ANY, prop::bool::ANY, prop::bool::weighted(0.2), prop::bool::weighted(0.2), prop::bool::weighted(0.15), prop::bool::weighted(0.15)),
     )
-        .prop_map(|(min_size, pre, append_mode, count, records, threads, second_lifetime, (fail_first_roll, fail_after_moving, via_config_default, first_encode_fails, symlinked, moved_away))| Case { moved_away, symlinked: symlinked && pre.is_some(), min_size, pre, append_mode, count, records, fail_first_roll: fail_first_roll && threads.is_none(), first_encode_fails: first_encode_fails && threads.is_none() && !fail_first_roll, threads, second_lifetime, long_lifetime: 0, fail_after_moving, via_config_default })
+        .prop_map(|(min_size, pre, append_mode, count, records, threads, second_lifetime, (fail_first_roll, fail_after_moving, via_config_default, first_encode_fails, symlinked, moved_away, late_env))| Case { moved_away, late_env, symlinked: symlinked && pre.is_some(), min_size, pre, append_mode, count, records, fail_first_roll: fail_first_roll && threads.is_none(), first_encode_fails: first_encode_fails && threads.is_none() && !fail_first_roll, threads, second_lifetime, long_lifetime: 0, fail_after_moving, via_config_default })
 }
 
 pub fn check(tmp: &Path, case: &Case, obs: &mut Obs) -> CaseResult {
@@ -73,7 +77,15 @@ pub fn check(tmp: &Path, case: &Case, obs: &mut Obs) -> CaseResult {
 }
 
 fn check_in(dir: &Path, case: &Case, obs: &mut Obs) -> CaseResult {
-    let path = dir.join("app.log");
+    std::env::remove_var("LV_C17_LATE");
+    let r = check_in2(dir, case, obs);
+    std::env::remove_var("LV_C17_LATE");
+    r
+}
+
+fn check_in2(dir: &Path, case: &Case, obs: &mut Obs) -> CaseResult {
+    let path = if case.late_env && case.threads.is_none() { dir.join("app-$ENV{LV_C17_LATE}.log") } else { dir.join("app.log") };
+    obs.class_if(case.late_env && case.threads.is_none(), "variable-in-the-path-set-after-the-appender-was-built");
     let arch = |i: u32| dir.join(format!("old.{}.log", i));
     let mut on_disk_before: Vec<u8> = vec![];
     let existed = case.pre.is_some();
@@ -99,6 +111,8 @@ fn check_in(dir: &Path, case: &Case, obs: &mut Obs) -> CaseResult {
     // archives expected by index (newest first)
     let mut archives: Vec<Vec<u8>> = vec![];
     for (li, recs) in lifetimes.iter().enumerate() {
+        // (every lifetime starts with the variable unset: the reference in the path stays as it is)
+        std::env::remove_var("LV_C17_LATE");
         let roller = RollSpec::Fixed { base: 0, count: case.count, pattern: "old.{}.log".into() };
         let roll_failures = Arc::new(std::sync::atomic::AtomicUsize::new(0));
         let fail_script: Vec<bool> = if li == 0 && case.fail_first_roll { vec![true] } else { vec![] };
@@ -123,6 +137,9 @@ fn check_in(dir: &Path, case: &Case, obs: &mut Obs) -> CaseResult {
             }
             .map_err(|e| Failure { sig: "C17:build".into(), msg: e.to_string() })?,
         );
+        if case.late_env && case.threads.is_none() {
+            std::env::set_var("LV_C17_LATE", "set-after-build");
+        }
         // size of the log file that exists at start-up as this appender sees it
         let start_content: Vec<u8> = if case.append_mode { on_disk_before.clone() } else { vec![] };
         let size_at_start = start_content.len() as u64;
@@ -319,7 +336,7 @@ pub fn run(run: &Run) {
     if run.worker.0 == 0 {
         // one very long lifetime: the "first record" latch must hold beyond any counter width one might pick
         for (pre, min_size) in [(Some(10i64), 5u64), (Some(-3), 40)] {
-            run.eval_one("startup", &Case { min_size, pre, append_mode: true, count: 2, records: vec![3, 0, 7], threads: None, second_lifetime: None, fail_first_roll: false, long_lifetime: 70_000, fail_after_moving: false, via_config_default: false, first_encode_fails: false, symlinked: false, moved_away: false }, &f);
+            run.eval_one("startup", &Case { min_size, pre, append_mode: true, count: 2, records: vec![3, 0, 7], threads: None, second_lifetime: None, fail_first_roll: false, long_lifetime: 70_000, fail_after_moving: false, via_config_default: false, first_encode_fails: false, symlinked: false, moved_away: false, late_env: false }, &f);
         }
     }
     run.search("startup", run.tier.pick(1_500, 80_000), strategy(), &f);
